@@ -349,6 +349,18 @@ func (p *Program) resolveExtern(sp *ssa.Package, fc *FuncContract) *ssa.Function
 		return nil
 	}
 	ts := types.ExprString(fc.Decl.Recv.List[0].Type)
+	// `extern func (pkgname) F(...)`: a package-level function of an imported package
+	for _, imp := range sp.Pkg.Imports() {
+		if imp.Name() == ts {
+			if ip := p.prog.Package(imp); ip != nil {
+				if f := ip.Func(fc.Decl.Name.Name); f != nil {
+					fc.Decl.Recv = nil // not a method: parameters are exactly the declared ones
+					return f
+				}
+			}
+			return nil
+		}
+	}
 	env := &Env{pkg: sp.Pkg}
 	t := env.resolveType(ts)
 	if t == nil {
